@@ -149,11 +149,12 @@ def bad_tables(z):
 def reject_menu():
     """(label, kind, kwargs, must_reject)"""
     M = []
-    for e in (0, 0.0, -0.5, -1e-9, 1.0000001, 1.5, 2):
+    import numpy as _np
+    for e in (0, 0.0, -0.5, -1e-9, 1.0000001, 1.5, 2, float(_np.nextafter(1.0, 2.0)), 1.0 + 1e-12, 1.0 + 7e-10, 3 * 0.1 / 0.3 if 3 * 0.1 / 0.3 > 1 else 1.0 + 2e-16):
         M.append(("eff=%r" % e, "Converter", dict(vo=3.3, eff=e), True))
     for e in (1.0, 1, 0.5, 1e-6):
         M.append(("eff=%r" % e, "Converter", dict(vo=3.3, eff=e), False))
-    for vals in ([0.5, 0.0, 0.9], [0.5, -0.7, 0.9], [0.5, 0.7, 1.01]):
+    for vals in ([0.5, 0.0, 0.9], [0.5, -0.7, 0.9], [0.5, 0.7, 1.01], [0.5, 0.7, 1.0 + 1e-12], [float(_np.nextafter(1.0, 2.0)), 0.7, 0.9]):
         M.append(("eff-table-entry %r" % vals, "Converter", dict(vo=3.3, eff=T1("eff", vals)), True))
         M.append(("eff-table2-entry %r" % vals, "Converter", dict(vo=3.3, eff=T2("eff", [[0.5, 0.6, 0.7], vals])), True))
     M.append(("eff-table-entry 1.0", "Converter", dict(vo=3.3, eff=T1("eff", [0.5, 0.7, 1.0])), False))
